@@ -3,6 +3,7 @@
 package font
 
 import (
+	ot "github.com/go-text/typesetting/font/opentype"
 	"github.com/go-text/typesetting/font/opentype/tables"
 )
 
@@ -57,5 +58,35 @@ func VfH_C09_font_cmap4() {
 		c4.Lookup(vfRune("r"))
 	}
 	vfCover("accepted", err == nil)
+	vfReach("end")
+}
+
+// H-C09-font-avar: coordinate normalisation with an ARBITRARY 'avar' table next to an 'fvar' table of
+// 0..2 axes (the two tables are parsed independently by NewFont): NormalizeVariations / SetVariations must be
+// total for every number of segment maps and every map content.
+func VfH_C09_font_avar() {
+	nAxes := vfChoice("nAxes", 3)
+	var ft Font
+	for i := 0; i < nAxes; i++ {
+		ft.fvar = append(ft.fvar, tables.VariationAxisRecord{Tag: ot.MustNewTag("wght"), Minimum: 100, Default: 400, Maximum: 900})
+	}
+	nMaps := vfChoice("nMaps", 4)
+	for i := 0; i < nMaps; i++ {
+		var sm tables.SegmentMaps
+		np := vfChoice("nPairs", 3)
+		for j := 0; j < np; j++ {
+			sm.AxisValueMaps = append(sm.AxisValueMaps, tables.AxisValueMap{FromCoordinate: tables.Coord(vfI16("from")), ToCoordinate: tables.Coord(vfI16("to"))})
+		}
+		ft.avar.AxisSegmentMaps = append(ft.avar.AxisSegmentMaps, sm)
+	}
+	grid := [...]float32{0, 100, 250, 400, 650, 900, 1000}
+	coords := make([]float32, nAxes)
+	for i := range coords {
+		coords[i] = grid[vfChoice("coord", len(grid))]
+	}
+	ft.NormalizeVariations(coords)
+	face := NewFace(&ft)
+	face.SetVariations([]Variation{{Tag: ot.MustNewTag("wght"), Value: grid[vfChoice("value", len(grid))]}})
+	vfCover("mapped", nMaps > 0 && nAxes > 0)
 	vfReach("end")
 }
